@@ -88,6 +88,9 @@ def build(D, res="main", mc=1):
             parts.append("7")
         if sa == k:
             parts.append("p")
+        ad = D.get("actdep") or [0, 0]
+        if ad[0] == k:
+            parts.append(f"twz_active=v{ad[1]}")          # an activation flag is a dependency like any argument
         if k in (D.get("calltag") or []) and D.get("tags", {}).get(str(k)):
             parts.append(f"twz_tag={tuple(D['tags'][str(k)])!r}")
         lines.append(f"    v{k} = X[{k}]({', '.join(parts)})")
@@ -213,7 +216,7 @@ def selections(D, rng, limit):
 def run_dag(D, rng, limit, forms=("id", "ref", "tag", "grp")):
     """All observations for one DAG description; returns the JSON record for SelCheck."""
     rec = {"n": D["n"], "deps": D["deps"], "kind": D["kind"], "const": D["const"], "tags": D.get("tags", {}),
-           "obs": [], "als": [], "built": True, "setuparg": D.get("setuparg", 0), "idxret": D.get("idxret") or [], "calltag": D.get("calltag") or [],
+           "obs": [], "als": [], "built": True, "setuparg": D.get("setuparg", 0), "idxret": D.get("idxret") or [], "calltag": D.get("calltag") or [], "actdep": D.get("actdep") or [0, 0],
            "tagseq": [D.get("tags", {}).get(str(k), []) for k in range(1, D["n"] + 1)]}
     try:
         base, ids, xs = build(D, res=D.get("res", "main"), mc=D.get("mc", 1))
@@ -221,7 +224,7 @@ def run_dag(D, rng, limit, forms=("id", "ref", "tag", "grp")):
         rec["built"] = False
         rec["build_error"] = repr(exc)[:200]
         return rec
-    if not legal(D) or D.get("setuparg"):
+    if not legal(D) or D.get("setuparg") or D.get("actdep"):
         return rec
     setup_nodes = [k for k in range(1, D["n"] + 1) if D["kind"][k - 1] == "setup"]
     sels = selections(D, rng, limit)
@@ -278,6 +281,12 @@ def dag_space(n, rng, const_mode="sample", with_illegal=True):
                 if rng.random() < 0.15:
                     D2["res"], D2["mc"] = "thread", 2
                 out.append(D2)
+                # a node whose activation flag is the result of a node it may not depend on (debug -> non-debug, non-setup -> setup)
+                for (kk, jj) in [(a, b) for a in range(2, n + 1) for b in range(1, a)]:
+                    bad_debug = kinds[jj - 1] == "debug" and kinds[kk - 1] != "debug"
+                    bad_setup = kinds[kk - 1] == "setup" and kinds[jj - 1] != "setup"
+                    if (bad_debug or bad_setup) and legal(D2) and jj not in shape[kk - 1] and rng.random() < 0.5:
+                        out.append(dict(D2, actdep=[kk, jj]))
                 setups = [k for k in range(1, n + 1) if kinds[k - 1] == "setup"]
                 if setups and legal(D2) and rng.random() < 0.3:
                     out.append(dict(D2, setuparg=rng.choice(setups)))
